@@ -38,6 +38,7 @@ ASSUMPTIONS = [
 ]
 
 BASES = [[0], [8], [1], [4, 8], [0, 3, 16], [0, 8, 16, 24]]
+COLLIDING_BASES = [[16, 24, 48, 56], [16, 24, 56], [0, 32, 128], [0, 64, 128], [16, 24, 48, 56]]  # pairs agree in min, max, residues mod 32
 SHAPE_CAP = 4000
 
 
@@ -178,6 +179,20 @@ def intrinsic_types(tier):
             yield ["struct", [a, b, c]]
     for d in T.unions(alpha, 3 if tier != "quick" else 2):
         yield d
+    # beyond three fields: 8..20 fields (fixed-length so that _offset_ stays cheap to print), byte-aligned composites late in the list;
+    # unions of 16..18 variants two of which cannot be told apart by an approximate set comparison
+    fixed = [["bool"], ["uint", 3, "s"], ["uint", 8, "s"], ["uint", 17, "t"], ["void", 5], ["farr", ["uint", 3, "s"], 2], INTR_DEPS[0], ["farr", INTR_DEPS[0], 2]]
+    for n in (8, 9, 10, 16, 17, 20):
+        for start in range(len(fixed)):
+            for step in (1, 3):
+                yield ["struct", [fixed[(start + i * step) % len(fixed)] for i in range(n)]]
+    a = ["union", [["uint", 8, "s"], ["uint", 16, "s"], ["uint", 48, "s"]]]  # {16, 24, 56}
+    b = ["union", [["uint", 8, "s"], ["uint", 16, "s"], ["uint", 40, "s"], ["uint", 48, "s"]]]  # {16, 24, 48, 56}: same min, max, residues mod 32
+    for n in (3, 16, 17, 18):
+        filler = [["uint", 8, "s"]] * (n - 2)
+        yield ["union", filler + [a, b]]
+        yield ["union", [b, a] + filler]
+        yield ["union", [a] + filler + [b]]
 
 
 # Distinct dependency types that all go by the name vns.Dep.1.0 (one per read) and are engineered to collide under an approximate
@@ -222,6 +237,11 @@ def cases(shard, tier):
             for n in (1, 2, 3, 4):
                 if i % shard["parts"] == shard["part"]:
                     yield {"kind": "array", "desc": ["farr", e, n]}
+                i += 1
+        for e in (["uint", 8, "s"], ["bool"], ["struct", [["uint", 8, "s"]]], ["varr", ["bool"], 3]):
+            for n in (16, 17, 20, 33):
+                if i % shard["parts"] == shard["part"]:
+                    yield {"kind": "array", "desc": ["farr", e, n], "colliding_bases": True}
                 i += 1
     elif shard["kind"] == "colliders":
         # sequences, in ONE process, of composites over element / field types whose length sets differ but agree in min, max and
@@ -388,7 +408,7 @@ def check_array(case, R):
     elif elem_starts is not None and [set(c) for c in cursor] != elem_starts:
         R.violation("reference-formulations-disagree", "harness self-check", case, observed=[sorted(s) for s in elem_starts], expected=[sorted(c) for c in cursor])
         return
-    for base in BASES:
+    for base in BASES + (COLLIDING_BASES if case.get("colliding_bases") else []):
         got = list(t.enumerate_elements_with_offsets(BitLengthSet(base)))
         if [i for i, _o in got] != list(range(n)):
             R.violation("elements-not-once-in-order", "every element yielded exactly once, in order", {**case, "base": base}, observed=[i for i, _o in got], expected=list(range(n)))
